@@ -56,6 +56,9 @@ class CNLTransformer(Transformer):
     def _new_field_value(self, name: str = '') -> ValueComponent:
         if name:
             result = re.sub(r'[AEIOU]', '', name, flags=re.IGNORECASE).upper()
+            if result[:1].isdigit():
+                # invented from a name such as 'a1': it must still start like a variable
+                result = 'X' + result
             if result in self._defined_variables:
                 match = re.findall(r'\d+', name)
                 if match:
